@@ -256,7 +256,8 @@ func (runInfo *runInfoStruct) runLetsStmt(stmt *ast.LetsStmt) {
 			// one of the other targets was assigned
 			rvs[i] = heldValue(runInfo.rv)
 		} else {
-			rvs[i] = runInfo.rv
+			// a, b = list: the list is the one read now, also when evaluating a target replaces it
+			rvs[i] = heldOperand(runInfo.rv)
 		}
 	}
 
